@@ -66,6 +66,9 @@ def iso_utc_time_to_seconds(isotime, _conversion_re=re.compile(r"(?P<year>\d{4})
     else:
         subsecfloat = 0
 
+    # calendar.timegm() silently normalizes out-of-range fields (Feb 31st
+    # becomes Mar 3rd); datetime() raises ValueError for them instead.
+    datetime.datetime(year, month, day, hour, minute, second)
     return calendar.timegm( (year, month, day, hour, minute, second, 0, 1, 0) ) + subsecfloat
 
 
